@@ -1,11 +1,340 @@
-//! C08 — not built yet.
+//! C08 — checksums: the implementation's CRC (exposed through `verify()`), the footer of built
+//! FSTs under different write chunkings, and the outcome of open+verify on corrupted files.
+//!
+//! case formats (fields separated by one blank):
+//!   crc <hexfile>                    a version-3 wrapper around arbitrary content, checksum field 0
+//!   bytes <tag> <hexfile>            bytes of an FST built by a builder (tag names builder and sink)
+//!   corrupt <hexfile> <pos> <hexbyte>     single-byte replacement of a built FST
+//!   burst <hexfile> <pos> <hexbytes>      2..4 consecutive bytes replaced
 use crate::common::*;
+use fst::raw::{Builder, Fst};
+use std::io::{self, Write};
+
 pub struct P;
-impl Prop for P {
-    fn generate(&self, _tier: Tier, _rng: &mut Rng, _stats: &mut Stats) -> Vec<String> {
-        vec![]
+
+pub fn le32(b: &[u8]) -> u32 {
+    (b[0] as u32) | (b[1] as u32) << 8 | (b[2] as u32) << 16 | (b[3] as u32) << 24
+}
+
+/// What open + accessors + verify did, in the canonical text the model driver also prints.
+/// Returns (opened, verified, implementation's computed checksum if it was exposed, text).
+pub fn outcome(bytes: &[u8], root: Option<String>) -> (bool, bool, Option<u32>, String) {
+    match Fst::new(bytes) {
+        Err(fst::Error::Fst(fst::raw::Error::Format { size })) => (false, false, None, format!("E:Format({})", size)),
+        Err(fst::Error::Fst(fst::raw::Error::Version { expected, got })) => {
+            (false, false, None, format!("E:Version({},{})", expected, got))
+        }
+        Err(e) => (false, false, None, format!("E:other({})", format!("{}", e).replace('\t', " ").replace('\n', " "))),
+        Ok(f) => {
+            let (ln, em, sz, ty) = (f.len(), f.is_empty(), f.size(), f.fst_type());
+            let same = f.as_bytes() == bytes;
+            let (cs, vs, ok, got) = match f.verify() {
+                Ok(()) => {
+                    // expected == got; the stored value is the last four bytes
+                    let c = le32(&bytes[bytes.len() - 4..]);
+                    (c.to_string(), "ok".to_string(), true, Some(c))
+                }
+                Err(fst::Error::Fst(fst::raw::Error::ChecksumMissing)) => ("none".to_string(), "Missing".to_string(), false, None),
+                Err(fst::Error::Fst(fst::raw::Error::ChecksumMismatch { expected, got })) => {
+                    (expected.to_string(), format!("Mismatch({},{})", expected, got), false, Some(got))
+                }
+                Err(e) => ("?".to_string(), format!("other({})", format!("{}", e).replace('\t', " ").replace('\n', " ")), false, None),
+            };
+            let r = match root {
+                Some(r) => format!(",root={}", r),
+                None => String::new(),
+            };
+            let s = format!(
+                "O:cs={},ty={},len={},empty={},size={}{}{};V:{}",
+                cs, ty, ln, em as u8, sz, r, if same { "" } else { ",as_bytes=DIFFERENT" }, vs
+            );
+            (true, ok, got, s)
+        }
     }
-    fn execute(&self, _case: &str) -> String {
-        String::new()
+}
+
+// ---------- sinks that chop the byte stream differently ----------
+/// accepts at most `cap` bytes per write call; optionally fails the first call with Interrupted
+pub struct CapSink {
+    pub buf: Vec<u8>,
+    pub cap: usize,
+    pub interrupt_every: usize,
+    calls: usize,
+}
+impl CapSink {
+    pub fn new(cap: usize, interrupt_every: usize) -> CapSink {
+        CapSink { buf: vec![], cap, interrupt_every, calls: 0 }
+    }
+}
+impl Write for CapSink {
+    fn write(&mut self, b: &[u8]) -> io::Result<usize> {
+        self.calls += 1;
+        if self.interrupt_every > 0 && self.calls % self.interrupt_every == 0 {
+            return Err(io::Error::new(io::ErrorKind::Interrupted, "interrupted"));
+        }
+        let n = b.len().min(self.cap);
+        self.buf.extend_from_slice(&b[..n]);
+        Ok(n)
+    }
+    fn flush(&mut self) -> io::Result<()> {
+        Ok(())
+    }
+}
+
+pub fn gen_keys(rng: &mut Rng, n: usize, maxlen: usize, alpha: usize) -> Vec<Vec<u8>> {
+    let mut ks: Vec<Vec<u8>> = (0..n)
+        .map(|_| {
+            let l = rng.range(0, maxlen);
+            (0..l)
+                .map(|_| if alpha >= 256 { rng.below(256) as u8 } else { b'a' + rng.below(alpha as u64) as u8 })
+                .collect()
+        })
+        .collect();
+    ks.sort();
+    ks.dedup();
+    ks
+}
+fn gen_val(rng: &mut Rng) -> u64 {
+    match rng.below(5) {
+        0 => 0,
+        1 => rng.below(256),
+        2 => rng.below(1 << 16),
+        3 => rng.next() >> rng.below(64),
+        _ => u64::MAX - rng.below(3),
+    }
+}
+
+/// Build through the raw builder into the given sink.
+fn build_raw<W: Write>(w: W, ty: u64, kvs: &[(Vec<u8>, u64)]) -> W {
+    let mut b = Builder::new_type(w, ty).unwrap();
+    for (k, v) in kvs {
+        b.insert(k, *v).unwrap();
+    }
+    b.into_inner().unwrap()
+}
+fn build_map(kvs: &[(Vec<u8>, u64)]) -> Vec<u8> {
+    let mut b = fst::MapBuilder::memory();
+    for (k, v) in kvs {
+        b.insert(k, *v).unwrap();
+    }
+    b.into_inner().unwrap()
+}
+fn build_set(ks: &[Vec<u8>]) -> Vec<u8> {
+    let mut b = fst::SetBuilder::memory();
+    for k in ks {
+        b.insert(k).unwrap();
+    }
+    b.into_inner().unwrap()
+}
+
+/// A version-3 file whose open succeeds whatever the content: the root address field is non-zero.
+fn wrapper(ty: u64, body: &[u8], nkeys: u64) -> Vec<u8> {
+    let mut f = vec![];
+    f.extend_from_slice(&3u64.to_le_bytes());
+    f.extend_from_slice(&ty.to_le_bytes());
+    f.extend_from_slice(body);
+    let total = f.len() + 16 + 4;
+    f.extend_from_slice(&nkeys.to_le_bytes());
+    f.extend_from_slice(&((total - 21) as u64).to_le_bytes());
+    f.extend_from_slice(&[0, 0, 0, 0]);
+    f
+}
+
+/// small built FSTs (sorted by size) used by the corruption families
+pub fn small_fsts(rng: &mut Rng, n: usize, maxkeys: usize, maxlen: usize) -> Vec<Vec<u8>> {
+    let mut out = vec![build_set(&[]), build_set(&[b"a".to_vec()]), build_map(&[(vec![], 7)]), build_map(&[(b"ab".to_vec(), 300), (b"b".to_vec(), 1)])];
+    while out.len() < n {
+        let nk = rng.range(0, maxkeys);
+        let ks = gen_keys(rng, nk, maxlen, 3);
+        if rng.chance(1, 2) {
+            out.push(build_set(&ks));
+        } else {
+            let kvs: Vec<_> = ks.into_iter().map(|k| (k, gen_val(rng))).collect();
+            out.push(build_map(&kvs));
+        }
+    }
+    out.sort_by_key(|b| b.len());
+    out.dedup();
+    out
+}
+
+impl Prop for P {
+    fn generate(&self, tier: Tier, rng: &mut Rng, stats: &mut Stats) -> Vec<String> {
+        let mut cases = vec![];
+        let (n_big_crc, n_built, n_exh, n_sampled, n_burst) = match tier {
+            Tier::Quick => (96, 160, 6, 40, 3000),
+            Tier::Thorough => (600, 1200, 12, 150, 20000),
+            Tier::Wide => (300, 400, 6, 60, 6000),
+        };
+        // (a) the implementation's CRC through verify(): every checksummed length 32..=320
+        // (all residues mod 16 with 2..20 fast-path blocks), three fills each for the short ones
+        for clen in 32usize..=320 {
+            let body_len = clen - 32;
+            for fill in 0..3 {
+                let body: Vec<u8> = match fill {
+                    0 => (0..body_len).map(|_| rng.below(256) as u8).collect(),
+                    1 => vec![0x00; body_len],
+                    _ => vec![0xFF; body_len],
+                };
+                let (ty, nk) = match fill {
+                    0 => (rng.next(), rng.next()),
+                    1 => (0, 0),
+                    _ => (u64::MAX, u64::MAX),
+                };
+                cases.push(format!("crc {}", hex(&wrapper(ty, &body, nk))));
+                stats.bump(&format!("crc_len_mod16_{}", clen % 16));
+            }
+        }
+        // every length up to 1056 once more with random content (66 blocks, all residues)
+        for clen in 321usize..=1056 {
+            let body: Vec<u8> = (0..clen - 32).map(|_| rng.below(256) as u8).collect();
+            cases.push(format!("crc {}", hex(&wrapper(rng.next(), &body, rng.next()))));
+            stats.bump("crc_len_321_to_1056_each");
+        }
+        // longer inputs up to 4096 checksummed bytes, boundary lengths around multiples of 16 and 256
+        let mut lens: Vec<usize> = vec![4096, 4095, 4081, 4080, 4079, 2048, 2047, 1024, 1023, 1025, 512, 511, 513, 336, 335, 337];
+        while lens.len() < n_big_crc {
+            lens.push(rng.range(321, 4096));
+        }
+        for (i, clen) in lens.into_iter().enumerate() {
+            let body_len = clen - 32;
+            let body: Vec<u8> = match i % 8 {
+                6 => vec![0x00; body_len],
+                7 => vec![0xFF; body_len],
+                _ => (0..body_len).map(|_| rng.below(256) as u8).collect(),
+            };
+            cases.push(format!("crc {}", hex(&wrapper(rng.next(), &body, rng.next()))));
+            stats.bump("crc_len_321_to_4096");
+        }
+        // (b) built FSTs: three builders, and the raw builder through sinks that accept 1..7, 8, 15, 16, 17, 64
+        // bytes per call or fail with Interrupted now and then: the bytes must not depend on the chunking
+        for i in 0..n_built {
+            let nk = match i % 4 {
+                0 => rng.range(0, 4),
+                1 => rng.range(0, 30),
+                _ => rng.range(0, 120),
+            };
+            let alpha = *rng.pick(&[2usize, 3, 26, 256]);
+            let maxlen = rng.range(0, 9);
+            let ks = gen_keys(rng, nk, maxlen, alpha);
+            let kvs: Vec<(Vec<u8>, u64)> = ks.iter().map(|k| (k.clone(), gen_val(rng))).collect();
+            let ty = if rng.chance(1, 2) { 0 } else { rng.next() };
+            let mem = build_raw(Vec::new(), ty, &kvs);
+            cases.push(format!("bytes raw-mem {}", hex(&mem)));
+            stats.bump("built_raw_memory");
+            let cap = *rng.pick(&[1usize, 2, 3, 4, 5, 6, 7, 8, 15, 16, 17, 64]);
+            let intr = *rng.pick(&[0usize, 0, 2, 3, 7]);
+            let chopped = build_raw(CapSink::new(cap, intr), ty, &kvs).buf;
+            if chopped != mem {
+                stats.bump("CHUNKING_CHANGED_THE_BYTES");
+            }
+            cases.push(format!("bytes raw-cap{}-intr{} {}", cap, intr, hex(&chopped)));
+            stats.bump("built_raw_partial_write_sink");
+            let bw = io::BufWriter::with_capacity(*rng.pick(&[1usize, 5, 16, 33]), CapSink::new(cap, 0));
+            let buffered = build_raw(bw, ty, &kvs).into_inner().map_err(|_| ()).unwrap().buf;
+            cases.push(format!("bytes raw-bufwriter {}", hex(&buffered)));
+            stats.bump("built_raw_bufwriter");
+            if i % 3 == 0 {
+                cases.push(format!("bytes map {}", hex(&build_map(&kvs))));
+                stats.bump("built_map");
+                cases.push(format!("bytes set {}", hex(&build_set(&ks))));
+                stats.bump("built_set");
+            }
+        }
+        // (c) corruption: every position x every other byte value for the smallest FSTs
+        let smalls = small_fsts(rng, 40, 4, 3);
+        let mut done = 0;
+        for f in smalls.iter().filter(|f| f.len() <= 64) {
+            if done >= n_exh {
+                break;
+            }
+            done += 1;
+            let h = hex(f);
+            for pos in 0..f.len() {
+                for v in 0..=255u8 {
+                    if v != f[pos] {
+                        cases.push(format!("corrupt {} {} {:02x}", h, pos, v));
+                    }
+                }
+            }
+            stats.bump("corrupt_exhaustive_fsts");
+            stats.add("corrupt_exhaustive_cases", (f.len() * 255) as u64);
+        }
+        // sampled: every position of larger FSTs x {bit flips, +1, 0, 0xFF, random}
+        let larger = small_fsts(rng, n_sampled, 40, 6);
+        for f in larger.iter() {
+            let h = hex(f);
+            for pos in 0..f.len() {
+                let o = f[pos];
+                let mut vs = vec![o ^ (1 << rng.below(8)), o.wrapping_add(1), rng.below(256) as u8];
+                if pos < 8 || pos + 24 >= f.len() {
+                    vs.extend_from_slice(&[0, 1, 2, 3, 4, 0xFF, o ^ 0x80, o ^ 1]);
+                }
+                vs.sort();
+                vs.dedup();
+                for v in vs {
+                    if v != o {
+                        cases.push(format!("corrupt {} {} {:02x}", h, pos, v));
+                        stats.bump("corrupt_sampled_cases");
+                    }
+                }
+            }
+        }
+        // bursts of 2..4 bytes
+        for _ in 0..n_burst {
+            let f = rng.pick(&larger).clone();
+            let bl = rng.range(2, 4).min(f.len());
+            let pos = if rng.chance(1, 4) { f.len() - bl - rng.range(0, 6.min(f.len() - bl)) } else { rng.range(0, f.len() - bl) };
+            let mut nb: Vec<u8> = (0..bl).map(|_| rng.below(256) as u8).collect();
+            // first and last byte of the burst really differ
+            if nb[0] == f[pos] {
+                nb[0] ^= 0x5a;
+            }
+            if nb[bl - 1] == f[pos + bl - 1] {
+                nb[bl - 1] ^= 0xa5;
+            }
+            cases.push(format!("burst {} {} {}", hex(&f), pos, hex(&nb)));
+            stats.bump(&format!("burst_len_{}", bl));
+        }
+        cases
+    }
+
+    fn nontrivial(&self, case: &str) -> bool {
+        // every family is non-trivial except wrappers with an empty body
+        !(case.starts_with("crc ") && case.len() <= 4 + 72)
+    }
+
+    fn execute(&self, case: &str) -> String {
+        let t: Vec<&str> = case.split(' ').collect();
+        match t[0] {
+            "crc" => {
+                let f = unhex(t[1]);
+                let (_, _, got, s) = outcome(&f, None);
+                match got {
+                    Some(g) => format!("S:{}\tM:{}", g, s),
+                    None => format!("S:unexposed\tM:{}", s),
+                }
+            }
+            "bytes" => {
+                let f = unhex(t[2]);
+                let (_, ok, _, s) = outcome(&f, None);
+                let last = if f.len() >= 4 { le32(&f[f.len() - 4..]).to_string() } else { "-".to_string() };
+                format!("S:{} {}\tM:{}", if ok { "verified" } else { "NOT-VERIFIED" }, last, s)
+            }
+            "corrupt" | "burst" => {
+                let mut f = unhex(t[1]);
+                let pos: usize = t[2].parse().unwrap();
+                let nb = unhex(t[3]);
+                // the unmodified file must open and verify, otherwise the case says nothing
+                let (_, ok0, _, _) = outcome(&f, None);
+                if !ok0 {
+                    return "S:precondition-failed\tM:-".to_string();
+                }
+                f[pos..pos + nb.len()].copy_from_slice(&nb);
+                let (_, ok, _, s) = outcome(&f, None);
+                format!("S:{}\tM:{}", if ok { "OK" } else { "notok" }, s)
+            }
+            _ => "S:BADCASE\tM:BADCASE".to_string(),
+        }
     }
 }
